@@ -1,5 +1,6 @@
 import Dyce.HistProofs
 import Dyce.PoolHProofs
+import Dyce.ConvLaws
 /-!
 # C01 — Histogram arithmetic is the exact convolution of independent outcomes
 
@@ -23,6 +24,7 @@ sort the result.
 | result outcomes strictly ascending, each once | `C01_result_sorted` |
 | pool operand = its flattened histogram | `C01_pool_operand` (+ `C03_noargs`: `P.h()` is the sum of the dice) |
 | zero-count entries never change a count | `C01_zero_pad_left`, `C01_zero_pad_right` |
+| the formula is symmetric in the operands: `a op b` and `b op' a` (`op'` = `op` with its arguments swapped) have the same counts, so a commutative operator commutes on histograms | `C01_swap`, `C01_commutative` |
 | unreduced counts scale the result linearly | `C01_scale_left`, `C01_scale_right` |
 -/
 namespace Dyce
@@ -34,6 +36,14 @@ theorem C01_convolution (le : γ → γ → Bool) (op : α → β → γ) (a : H
     countOf z (mapH le op a b)
       = wsum a (fun x => wsum b (fun y => if op x y = z then 1 else 0)) :=
   countOf_mapH le op a b z
+
+theorem C01_swap (le : γ → γ → Bool) (op : α → β → γ) (a : Hist α) (b : Hist β) (z : γ) :
+    countOf z (mapH le op a b) = countOf z (mapH le (fun y x => op x y) b a) :=
+  countOf_mapH_swap le op a b z
+
+theorem C01_commutative (le : γ → γ → Bool) (op : α → α → γ) (hop : ∀ x y, op x y = op y x)
+    (a b : Hist α) (z : γ) : countOf z (mapH le op a b) = countOf z (mapH le op b a) :=
+  countOf_mapH_comm le op hop a b z
 
 theorem C01_total (le : γ → γ → Bool) (op : α → β → γ) (a : Hist α) (b : Hist β) :
     total (mapH le op a b) = total a * total b :=
